@@ -563,7 +563,7 @@ func init() {
 	Props["C04"] = c04
 
 	c05 := mk("C05")
-	c05.Rule = "case = (mergeable schema set (base + <=2 (thorough 3) world atoms), one conflict atom out of 47: same root field twice (query, mutation), one name two kinds (all 15 kind pairs), Node in one service only, Node type with duplicated field, " +
+	c05.Rule = "case = (mergeable schema set (base + <=2 (thorough 3) world atoms), one conflict atom out of 55: same root field twice (query, mutation), one name two kinds (all 15 kind pairs), Node in one service only, Node type with duplicated field, " +
 		"shared type/input partial overlap or subset, shared (input) field with different type/nullability/list wrapper/argument name/type/default (also defaults that differ inside a list or object literal only), union with different members (overlapping, and one list a strict subset of the other); plus 4 acceptable differences) x all permutations of the service list; " +
 		"oracle: Merge returns an error for a conflict (no panic, no silent success), accept/reject identical across permutations, and on accept canonical facts and Node-field routes identical across permutations; " +
 		"the mergeable sets themselves are also checked for permutation invariance; non-trivial = a conflict atom was applied"
